@@ -8,6 +8,7 @@ while [ ! -e /tmp/seedloop.stop ]; do
     [ -e "$d/meta.json" ] || continue
     [ -e "$d/result.txt" ] && continue
     [ -e "props/$id/prop.py" ] || continue
+    mkdir "/tmp/seedclaim-$id" 2>/dev/null || continue
     nice -n 5 timeout 3600 tools/seedrun.sh $id > "$d/result.txt.tmp" 2>&1
     mv "$d/result.txt.tmp" "$d/result.txt"; did=1
     echo "$(date +%H:%M) $(head -c 300 $d/result.txt)" >> /tmp/seedloop.log
